@@ -934,14 +934,22 @@ func extractAndCompare(tmp string, order []int, ms []MemberSpec, hdrs []*hdrObs)
 		if ft != want {
 			fail("type %o, header type %c", ft, h.Type)
 		}
-		if h.Type != tar.TypeSymlink && int64(o.Mode&07777) != h.Mode&07777 {
-			fail("mode %o, header %o", o.Mode&07777, h.Mode&07777)
+		// a hard link is one more name of the member it points to: mode, owner, time and
+		// attributes are those of that member's header
+		mh := h
+		if h.Type == tar.TypeLink {
+			if t := byName[h.Link]; t != nil {
+				mh = t
+			}
 		}
-		if int(o.Uid) != h.Uid || int(o.Gid) != h.Gid {
-			fail("owner %d:%d, header %d:%d", o.Uid, o.Gid, h.Uid, h.Gid)
+		if h.Type != tar.TypeSymlink && int64(o.Mode&07777) != mh.Mode&07777 {
+			fail("mode %o, header %o", o.Mode&07777, mh.Mode&07777)
 		}
-		if o.Mtime != h.Mtime {
-			fail("mtime %d, header %d", o.Mtime, h.Mtime)
+		if int(o.Uid) != mh.Uid || int(o.Gid) != mh.Gid {
+			fail("owner %d:%d, header %d:%d", o.Uid, o.Gid, mh.Uid, mh.Gid)
+		}
+		if o.Mtime != mh.Mtime {
+			fail("mtime %d, header %d", o.Mtime, mh.Mtime)
 		}
 		switch h.Type {
 		case tar.TypeReg:
@@ -964,11 +972,11 @@ func extractAndCompare(tmp string, order []int, ms []MemberSpec, hdrs []*hdrObs)
 				fail("device %d:%d, header %d:%d", ma, mi, h.Major, h.Minor)
 			}
 		}
-		if len(o.Xattrs) != len(h.Xattrs) {
-			fail("%d xattrs, header %d", len(o.Xattrs), len(h.Xattrs))
+		if len(o.Xattrs) != len(mh.Xattrs) {
+			fail("%d xattrs, header %d", len(o.Xattrs), len(mh.Xattrs))
 		} else {
 			for k := range o.Xattrs {
-				if o.Xattrs[k] != h.Xattrs[k] {
+				if o.Xattrs[k] != mh.Xattrs[k] {
 					fail("xattr %q differs", o.Xattrs[k][0])
 				}
 			}
